@@ -294,6 +294,19 @@ func (s *sys) runNode(i int) {
 func scenario(w *sim.World) {
 	s := &sys{w: w}
 	s.generate()
+	// R8 knob: in a third of the runs the merge queue of every replica holds 1 or 2 states
+	// instead of 100, so "the queue is full" happens with a handful of peers
+	if w.Choose(sim.KCfg, 3) == 1 {
+		capac := 1 + w.Choose(sim.KCfg, 2)
+		w.KnobFn = func(name string, def int) int {
+			if strings.HasPrefix(name, "crdt.go#") {
+				return capac
+			}
+			return def
+		}
+		s.desc += fmt.Sprintf(" | merge queue capacity %d", capac)
+		w.Probe("small_merge_queue")
+	}
 	w.Event("cfg %s", s.desc)
 	for i := 0; i < s.n; i++ {
 		s.runNode(i)
